@@ -377,4 +377,15 @@ for _sfx in ('_w', '_b'):
                         min_props=20, expect_loop_props=4, timeout=3000))
 GROUPS.append(Group('isLegal', 'h_isLegal', enforce='MoveGen_isLegal',
                     replace=_ATT + ('MoveGen_inCheck', 'MoveGen_sqAttacked3', 'BitBoard_getDirection', 'BitBoard_firstSquare'), min_props=10, timeout=3000))
-PROPERTIES = {'C01': [g.name for g in GROUPS]}
+# groups that are part of the C01 claim (the others are built but did not close yet: run them with --only)
+CLAIMED = ['sqAttacked_w', 'sqAttacked_b', 'sqAttacked3', 'sqAttacked2', 'inCheck', 'addMovesByMask', 'addPawnDoubleMovesByMask', 'addPawnMovesByMask_w', 'addPawnMovesByMask_b']
+PROPERTIES = {'C01': CLAIMED}
+ASSUMPTIONS = {'C01': [
+    'assumed contracts (stubs): BitBoard::rookAttacks / bishopAttacks return the ray sets over the given occupancy (magic lookup and its tables are not proved)',
+    'assumed contracts: BitBoard::kingAttacks/knightAttacks/wPawnAttacks/bPawnAttacks/squaresBetween equal their coordinate definitions (table initialisation in BitBoard::staticInitialize not proved yet); getDirection is proved in unit bits',
+    'assumed contract: MoveList::addMove appends exactly its move (placement new into the int buffer, text pinned); A-MAXMOVES: the capacity of 256 moves is never exceeded',
+    'position domain: bitboards consistent with the board (wf_bb), one king per side, no pawns on the first/last rank, castling rights imply king and rook on their squares, en-passant square as makeMove establishes it',
+]}
+NOT_DECIDED = {'C01': ['isLegal (verdict == playing the move; contract written, proof did not finish in 50 min)', 'removeIllegal, givesCheck (not under contract yet)',
+                       'the generators pseudoLegalMoves / checkEvasions / pseudoLegalCaptures / pseudoLegalCapturesAndChecks (checkEvasions contract written; status in DESIGN)',
+                       'sliding-attack magic tables, attack table initialisation, FEN text layer']}
